@@ -329,6 +329,61 @@ theorem c17_history_refines (base : Nat → Int) (s : Sys) (ops : List Op) (h : 
     exact this
   exact c17_refines_fifo base (run s pre) op hpre (hops pre op post e) hok
 
+/-- reference step on the pair (bytes of queue 0, bytes of queue 1) -/
+def specPair (files : Nat → Bytes) (p : Bytes × Bytes) (op : Op) (r : Res) : Bytes × Bytes :=
+  if op.qi then ((specStep files p.2 p.1 op r).2, (specStep files p.2 p.1 op r).1)
+  else specStep files p.1 p.2 op r
+
+/-- reference run: the fold of `specStep` over the operations, each with the
+    result it reported and the file contents at that time (what append_file
+    refers to) -/
+def specRun : Bytes × Bytes → List (Op × Res × (Nat → Bytes)) → Bytes × Bytes
+  | p, [] => p
+  | p, (op, r, files) :: t => specRun (specPair files p op r) t
+
+/-- what a history lets its caller see: per operation the result reported -/
+def trace (s : Sys) : List Op → List (Op × Res × (Nat → Bytes))
+  | [] => []
+  | op :: ops => (op, (step s op).2, fun fid => (s.w.files fid).content) :: trace (step s op).1 ops
+
+def spillsOk : List (Op × Res × (Nat → Bytes)) → Prop
+  | [] => True
+  | (op, r, _) :: t => (op.spills = true → r = .rc true) ∧ spillsOk t
+
+/-- History-level refinement: after any history in which no spilling operation
+    reported an error, under any fault schedule, the two queues hold exactly
+    what the byte-string reference queues hold after the same operations with
+    the same reported results. -/
+theorem c17_run_refines (base : Nat → Int) (s : Sys) (ops : List Op) (h : FInv base s)
+    (hops : ∀ (pre : List Op) (op : Op) (post : List Op), ops = pre ++ op :: post → OpOK (run s pre) op)
+    (hok : spillsOk (trace s ops)) :
+    ((run s ops).abs false, (run s ops).abs true) = specRun (s.abs false, s.abs true) (trace s ops) := by
+  induction ops generalizing s with
+  | nil => rfl
+  | cons op ops ih =>
+    simp only [run, trace, specRun]
+    simp only [trace, spillsOk] at hok
+    have hop := hops [] op ops rfl
+    have hstep := (c17_refines_fifo base s op h hop hok.1).1
+    have hpair : specPair (fun fid => (s.w.files fid).content) (s.abs false, s.abs true) op (step s op).2 =
+        ((step s op).1.abs false, (step s op).1.abs true) := by
+      unfold specPair
+      cases hq : op.qi with
+      | false =>
+        rw [hq] at hstep
+        simp only [Bool.false_eq_true, if_false]
+        exact hstep.symm
+      | true =>
+        rw [hq] at hstep
+        simp only [if_true]
+        simp only [Bool.not_true] at hstep
+        rw [← hstep]
+    rw [hpair]
+    refine ih (step s op).1 (step_finv s op h hop).1 ?_ hok.2
+    intro pre op' post e
+    have := hops (op :: pre) op' post (by rw [e]; rfl)
+    simpa [run] using this
+
 /-- No leak, no double release, for every history and every fault schedule:
     in a well-accounted system (every open descriptor is held by a chunk; a
     temp file's name exists iff a temp chunk owns it) every operation, failed
@@ -395,6 +450,11 @@ example : (run (init demoWorld rfl) demoOps).abs true = [4] := by decide
 example : (run (init demoWorld rfl) demoOps).abs false = [5, 1] := by decide
 example : ((run (init demoWorld rfl) demoOps).get true).length = 1 := by decide
 example : OpOK (init demoWorld rfl) (.appendMem false [1, 2, 3]) := trivial
+/-- the hypothesis of `c17_run_refines` holds for the demo history (its spill,
+    under a short write and ENOSPC with a second dir, reports success) -/
+example : spillsOk (trace (init demoWorld rfl) demoOps) := by
+  simp only [demoOps, trace, spillsOk]
+  exact ⟨fun h => (by cases h), fun _ => (by decide), fun h => (by cases h), fun h => (by cases h), trivial⟩
 /-- the demo history really creates temp files (two of them, the second after
     ENOSPC; the first one is unlinked again once its last byte is consumed) -/
 example : ((run (init demoWorld rfl) demoOps).w.files 0).nlink = 0 ∧
